@@ -659,3 +659,20 @@ def run(ctx):
     w1, w2 = wrappers(cr), wrappers(rp)
     ctx.check("finalisation", "compute_root-vs-root_from_paths", w1 == w2, "both sides finalise with %s" % (w1 or "nothing"),
               "compute_root finalises with %s but root_from_paths with %s" % (w1, w2))
+
+    # ------------------------------------------------------------------ the tree operations complete for every batch the server feeds them
+    # "for every batch (also on a reused tree) root and paths are produced": an index or arithmetic panic inside the tree for some sequence of batch
+    # sizes is a violation of C04 as much as of C08.  The panic obligations of C08 that lie in the Merkle module are obligations here.
+    if ctx.extra.get("structure_rules_only"):
+        return
+    import importlib
+    from framework import Ctx
+    c8 = importlib.import_module("rules.C08")
+    sub8 = Ctx("C08", P, ctx.repo, "quick", ctx.feature)
+    c8.run(sub8)
+    mine = [i for i in sub8.instances if i["rule"] == "no-panic" and str(i.get("loc") or "").startswith("src/merkle.rs")]
+    bad8 = [i for i in mine if not i["ok"]]
+    ctx.check("completes", "no-panic-in-the-tree-for-any-batch-sequence(C08)", not bad8,
+              "no reachable panic inside the Merkle module when driven by the server (%d obligations)" % len(mine),
+              "a tree operation can panic for some sequence of batches: " + (bad8[0]["detail"] if bad8 else ""), bad8[0].get("loc") if bad8 else None)
+    ctx.floor("completes", len(mine), 10, "panic obligations inside src/merkle.rs reachable from process_events")
